@@ -145,7 +145,7 @@ END_HEX_STRING = re.compile(rb"[^\s0-9a-fA-F]")
 HEX_PAIR = re.compile(rb"[0-9a-fA-F]{2}|.")
 END_NUMBER = re.compile(rb"[^0-9]")
 END_KEYWORD = re.compile(rb"[#/%\[\]()<>{}\s\x00]")
-END_STRING = re.compile(rb"[()\134]")
+END_STRING = re.compile(rb"[()\134\r]")
 OCT_STRING = re.compile(rb"[0-7]")
 ESC_STRING = {
     b"b": 8,
@@ -423,6 +423,12 @@ class PSBaseParser:
         if c == b"\\":
             self.oct = b""
             self._parse1 = self._parse_string_1
+            return j + 1
+        if c == b"\r":
+            # An end-of-line marker within a literal string is read as \n,
+            # whether it is \r, \n or \r\n
+            self._curtoken += b"\n"
+            self._parse1 = self._parse_string_2
             return j + 1
         if c == b"(":
             self.paren += 1
